@@ -3,7 +3,7 @@ from .C02 import e2_jobs, META as _M
 
 META = dict(_M)
 META["assumptions"] = _M["assumptions"] + ["T5 (textbook): multinomial moments E f = p, Cov f = (diag p - p p^T)/n, independent schedules -- assumed, replaces the property's enumeration oracle"]
-CLASSES = ["contracts.C19_all:MatrixUtilStatistics", "contracts.C19_all:AnalyticalErrors", "contracts.C19_all:SampleMse", "contracts.C19_all:SampleSeries"]
+CLASSES = ["contracts.C19_all:MatrixUtilStatistics", "contracts.C19_all:AnalyticalErrors", "contracts.C19_all:SampleMse", "contracts.C19_all:SampleSeries", "contracts.C19_all:FisherEps"]
 
 
 def jobs(tier, seed):
